@@ -228,7 +228,8 @@ def display_model_exprs(it, et, tids, preds):
                           F.opt_attr_coq(c.get("fmt"), et), F.opt_attr_coq(v.get("fmt"), et),
                           pred_ids(v.get("bounds")), coq_str(name_of(v["name"], c.get("rename_all"))),
                           F.fields_coq(v["fields"], et, tids), params, tr))
-        exprs.append("d_expand_enum unicode_cc %s [%s]" % (F.opt_attr_coq(c.get("fmt"), et), "; ".join(vs)))
+        exprs.append("match d_expand_enum unicode_cc %s [%s] with ROk arms => ROk (arms, d_enum_bounds %s arms) | RErr c => RErr c end" % (
+            F.opt_attr_coq(c.get("fmt"), et), "; ".join(vs), pred_ids(c.get("bounds"))))
     return exprs
 
 
@@ -289,10 +290,15 @@ def compare_display(chk, items, tier):
         if t[0] == "RErr":
             m_err = t[1]
         else:
-            pairs = [t[1]] if it["kind"] == "struct" else t[1]
-            for (b, bs) in pairs:
+            if it["kind"] == "struct":
+                b, bs = t[1]
                 m_bodies.append(F.canon_model_body(b, et) if b != "BEmpty" else None)
                 m_bounds += F.canon_model_bounds(bs, tids_rev, preds_rev)
+            else:
+                arms, allb = t[1]
+                for (b, _) in arms:
+                    m_bodies.append(F.canon_model_body(b, et) if b != "BEmpty" else None)
+                m_bounds += F.canon_model_bounds(allb, tids_rev, preds_rev)
         ms = t
         out.append({"item": it, "src": F.item_src(it), "resp": resp, "model_terms": ms, "m_err": m_err,
                     "m_bodies": m_bodies, "m_bounds": m_bounds, "et": et})
